@@ -180,7 +180,7 @@ func genDedup(r *vlib.R, tier string, emit func(string)) {
 	for round := 0; round < rounds; round++ {
 		// ample pool, production dedup wait
 		emit("dedup new 700 0 0")
-		emit(fmt.Sprintf("dedup burst ok%d %d %d %d %s %d", 60+r.Intn(120), 2+r.Intn(5), r.Intn(3), r.Intn(3), cancel(), r.Intn(3)))
+		emit(fmt.Sprintf("dedup burst ok%d %d %d %d %s %d", 60+r.Intn(120), 2+r.Intn(5), r.Intn(3), 1+r.Intn(2), vlib.Pick(r, []string{"-", "follower"}), r.Intn(3)))
 		emit(fmt.Sprintf("dedup burst ok%d %d %d %d leader 0", 80+r.Intn(100), 2+r.Intn(4), 1+r.Intn(2), r.Intn(2)))
 		emit(fmt.Sprintf("dedup burst sf%d %d %d %d %s 0", 30+r.Intn(60), 2+r.Intn(4), r.Intn(2), r.Intn(2), cancel()))
 		emit(fmt.Sprintf("dedup burst hang %d %d %d %s %d", 2+r.Intn(4), r.Intn(3), r.Intn(2), cancel(), r.Intn(2)))
@@ -188,7 +188,6 @@ func genDedup(r *vlib.R, tier string, emit func(string)) {
 		// expired RFC 9520 failure: the next cohort runs the failure-probe path (regroup, probe limit)
 		emit("dedup shift 2500")
 		emit(fmt.Sprintf("dedup burst sf%d %d %d %d - %d", 40+r.Intn(60), 3+r.Intn(4), 1+r.Intn(2), r.Intn(2), r.Intn(2)))
-		emit(fmt.Sprintf("dedup burst ok%d %d %d %d follower 0", 60+r.Intn(60), 2+r.Intn(3), r.Intn(2), 1))
 		emit("dedup drain")
 		// bounded wait shorter than the leader's work: followers are released by the timer
 		emit(fmt.Sprintf("dedup new 700 %d 0", 80+r.Intn(100)))
@@ -283,7 +282,6 @@ func genSys(r *vlib.R, tier string, emit func(string)) {
 		emit("sys new n 0")
 		emit("sys wave " + genWave(r, "n", 10))
 		emit("sys shift 2500") // cached failures expire: failure-probe cohorts against the failing zones
-		emit("sys wave " + genWave(r, "n", 10))
 		emit("sys wave " + genWave(r, "n", 10))
 		emit("sys drain")
 		emit("sys new r 0")
